@@ -307,3 +307,20 @@ Print Assumptions C12_source_inst_transparent.
 Example C12_source_ex : src_evar_is_free 30 (and_p (PEVar 1) (neg_p (PEVar 2))) 1 = Some false /\
   src_instantiate 30 d5_pat d5_delta = Some (PInst (PImp (pphi 0) (pphi 1)) [(0, PEVar 7); (1, pphi 0)]).
 Proof. vm_compute. split; reflexivity. Qed.
+
+(** ---- unwrap / extract of EVERY class, the base class [Pattern] and [Instantiate] itself included (class codes:
+    Py/Pattern.v [head_code], 11 = Pattern): the answer is [Some fields] exactly when the expansion's head has the asked
+    class (always for Pattern, never for Instantiate), and the fields expand to the expansion's fields ---- *)
+Theorem C12_unwrap_any_class : forall f, f_mv_keep_subst f = true -> f_inst_extend f = true ->
+  forall n c p u, unwrap_cls f n c p = Some u ->
+  match u with
+  | Some l => (c = 11 \/ c = p_head_code (expand f p)) /\ map (expand f) l = p_children (expand f p)
+  | None => c <> 11 /\ c <> p_head_code (expand f p)
+  end.
+Proof. exact unwrap_cls_expand. Qed.
+Theorem C12_bridge_unwrap_any_class : forall se ss f n c p, corner_free se ss p = true ->
+  unwrap_cls f n c p = unwrap_cls (with_keep f) n c p.
+Proof. exact unwrap_cls_bridge. Qed.
+Example C12_ex_unwrap_base : unwrap_cls flags_current 30 11 (neg_p (pphi 0)) = Some (Some [pphi 0; bot_p]) /\
+  unwrap_cls flags_current 30 10 (neg_p (pphi 0)) = Some None.
+Proof. vm_compute. split; reflexivity. Qed.
